@@ -52,10 +52,13 @@ mod c01 {
     {
         let nt = any_native();
         let documented = accepted.contains(&nt);
-        let typ = ColumnType::Native(nt);
+        // ColumnType is a recursive enum: CBMC unwinds its drop glue to the unwinding bound at every drop. None of the
+        // values below owns heap data, so they are deliberately never dropped (ManuallyDrop / forget).
+        let typ = std::mem::ManuallyDrop::new(ColumnType::Native(nt));
+        let typ: &ColumnType = &typ;
         let prefix: u8 = kani::any();
         let mut buf: Vec<u8> = vec![prefix];
-        let r = v.serialize(&typ, CellWriter::new(&mut buf));
+        let r = std::mem::ManuallyDrop::new(v.serialize(typ, CellWriter::new(&mut buf)));
         if documented {
             assert!(r.is_ok(), "documented pair accepted");
             let (cell, n) = spec_cell(image, width);
@@ -67,18 +70,24 @@ mod c01 {
                 }
                 i += 1;
             }
-            assert!(<T as DeserializeValue>::type_check(&typ).is_ok());
-            let back = <T as DeserializeValue>::deserialize(&typ, Some(FrameSlice::new_borrowed(&buf[5..]))).unwrap();
-            assert!(same(&back, &v), "decode(encode(v)) == v");
+            let tc = std::mem::ManuallyDrop::new(<T as DeserializeValue>::type_check(typ));
+            assert!(tc.is_ok());
+            let back = std::mem::ManuallyDrop::new(<T as DeserializeValue>::deserialize(typ, Some(FrameSlice::new_borrowed(&buf[5..]))));
+            match &*back {
+                Ok(b) => assert!(same(b, &v), "decode(encode(v)) == v"),
+                Err(_) => assert!(false, "a well-formed cell decodes"),
+            }
             // wrong width: one byte short
-            let short = <T as DeserializeValue>::deserialize(&typ, Some(FrameSlice::new_borrowed(&buf[5..buf.len() - 1])));
+            let short = std::mem::ManuallyDrop::new(<T as DeserializeValue>::deserialize(typ, Some(FrameSlice::new_borrowed(&buf[5..buf.len() - 1]))));
             assert!(short.is_err(), "a cell of the wrong width is rejected");
             // null cell for a non-Option carrier is an error, not a default value
-            assert!(<T as DeserializeValue>::deserialize(&typ, None).is_err());
+            let null = std::mem::ManuallyDrop::new(<T as DeserializeValue>::deserialize(typ, None));
+            assert!(null.is_err());
         } else {
             assert!(r.is_err(), "undocumented pair rejected");
             assert!(buf.len() == 1 && buf[0] == prefix, "no byte of a mismatched value is written");
-            assert!(<T as DeserializeValue>::type_check(&typ).is_err(), "reading into a mismatched type is refused");
+            let tc = std::mem::ManuallyDrop::new(<T as DeserializeValue>::type_check(typ));
+            assert!(tc.is_err(), "reading into a mismatched type is refused");
         }
     }
 
@@ -113,31 +122,35 @@ mod c01 {
     #[kani::stub(std::rt::thread_cleanup, noop)]
     #[kani::stub(alloc::fmt::format, empty_string)]
     fn c01_option_and_unset() {
-        let typ = ColumnType::Native(NativeType::Int);
+        use std::mem::ManuallyDrop as MD;
+        let typ = MD::new(ColumnType::Native(NativeType::Int));
+        let typ: &ColumnType = &typ;
         let x: i32 = kani::any();
         let mut buf: Vec<u8> = Vec::new();
-        Option::<i32>::None.serialize(&typ, CellWriter::new(&mut buf)).unwrap();
+        assert!(MD::new(Option::<i32>::None.serialize(typ, CellWriter::new(&mut buf))).is_ok());
         assert!(buf == [0xff, 0xff, 0xff, 0xff], "null = [int] -1");
         buf.clear();
-        Unset.serialize(&typ, CellWriter::new(&mut buf)).unwrap();
+        assert!(MD::new(Unset.serialize(typ, CellWriter::new(&mut buf))).is_ok());
         assert!(buf == [0xff, 0xff, 0xff, 0xfe], "not set = [int] -2");
         buf.clear();
-        MaybeUnset::<i32>::Unset.serialize(&typ, CellWriter::new(&mut buf)).unwrap();
+        assert!(MD::new(MaybeUnset::<i32>::Unset.serialize(typ, CellWriter::new(&mut buf))).is_ok());
         assert!(buf == [0xff, 0xff, 0xff, 0xfe]);
         buf.clear();
-        Some(x).serialize(&typ, CellWriter::new(&mut buf)).unwrap();
+        assert!(MD::new(Some(x).serialize(typ, CellWriter::new(&mut buf))).is_ok());
         let (cell, n) = spec_cell(x as u32 as u64, 4);
         assert!(buf.len() == n && buf[..] == cell[..n]);
         buf.clear();
-        MaybeUnset::Set(x).serialize(&typ, CellWriter::new(&mut buf)).unwrap();
+        assert!(MD::new(MaybeUnset::Set(x).serialize(typ, CellWriter::new(&mut buf))).is_ok());
         assert!(buf.len() == n && buf[..] == cell[..n]);
         // reading: null -> None, value -> Some
-        assert!(<Option<i32> as DeserializeValue>::deserialize(&typ, None).unwrap().is_none());
-        assert!(<Option<i32> as DeserializeValue>::deserialize(&typ, Some(FrameSlice::new_borrowed(&buf[4..]))).unwrap() == Some(x));
+        let r0 = MD::new(<Option<i32> as DeserializeValue>::deserialize(typ, None));
+        assert!(matches!(&*r0, Ok(None)));
+        let r1 = MD::new(<Option<i32> as DeserializeValue>::deserialize(typ, Some(FrameSlice::new_borrowed(&buf[4..]))));
+        assert!(matches!(&*r1, Ok(Some(y)) if *y == x));
         // a mismatched Some(v) writes nothing
-        let wrong = ColumnType::Native(NativeType::BigInt);
+        let wrong = MD::new(ColumnType::Native(NativeType::BigInt));
         buf.clear();
-        assert!(Some(x).serialize(&wrong, CellWriter::new(&mut buf)).is_err() && buf.is_empty());
+        assert!(MD::new(Some(x).serialize(&wrong, CellWriter::new(&mut buf))).is_err() && buf.is_empty());
     }
 
     /// canary
@@ -149,7 +162,8 @@ mod c01 {
     fn c01_canary_i32_little_endian() {
         let x: i32 = kani::any();
         let mut buf: Vec<u8> = Vec::new();
-        x.serialize(&ColumnType::Native(NativeType::Int), CellWriter::new(&mut buf)).unwrap();
+        let typ = std::mem::ManuallyDrop::new(ColumnType::Native(NativeType::Int));
+        let _ = std::mem::ManuallyDrop::new(x.serialize(&typ, CellWriter::new(&mut buf)));
         assert!(buf[4] == x as u8, "little-endian would put the low byte first");
     }
 }
